@@ -253,6 +253,10 @@ class Planner:
             v = r.choice([1 / 3, 0.1 + 0.2, 3.141592653589793, 2.718281828459045, 1 + 2**-52, 1e-17 / 3, 123456789.12345679, -2 / 3])
         elif q < 0.16:
             v = ["c", 1 / 3, 0.1 + 0.2]
+        if r.random() < self.cfg.get("exotic_p", 0.04):
+            # the same numbers arriving as bool / numpy scalars (as_ufl normalises them)
+            k = r.choice([1, 2, 3, 7, 10, 99, 100, 200])
+            v = r.choice([True, ["np", "int64", k], ["np", "int32", k], ["np", "float64", 0.5], ["np", "float64", float(k)], ["np", "int64", -1]])
         return self.call("ufl.as_ufl", v)
 
     def terminal(self, M):
@@ -733,6 +737,127 @@ class Planner:
                     self.derived.append((d, rk, self.meshes.index(M)))
         return f
 
+    def mesh_sequence_form(self):
+        """A multi-domain form over a MeshSequence: a mixed space whose components live on
+        different meshes, integrals with intersect_measures, coefficients that
+        compute_form_data splits into new per-mesh coefficients."""
+        r = self.rng
+        cell = r.choice(["triangle", "triangle", "interval", "tetrahedron"])
+        g = CELLS[cell]
+        n = r.choice([2, 2, 3])
+        meshes = []
+        for _ in range(n):
+            ce = self.elem("Lagrange", cell, 1, (g,))
+            m = self.call("ufl.Mesh", self.ref(ce), kind="mesh")
+            if m is None:
+                return None
+            meshes.append(m)
+        specs = [("Lagrange", 1, (), "H1"), ("Lagrange", 2, (), "H1"), ("Discontinuous Lagrange", 0, (), "L2"), ("Lagrange", 1, (g,), "H1")]
+        elems = []
+        for _ in range(n):
+            fam_, k, sh, sob = r.choice(specs)
+            elems.append(self.elem(fam_, cell, k, sh, sob=sob))
+        me = self.call("sim.elements.MixedElem", [self.ref(e) for e in elems], kind="elem", make_cell_sequence=True)
+        seq = [self.ref(m) for m in meshes]
+        dom = self.call("ufl.MeshSequence", (["t"] + seq) if r.random() < 0.4 else seq, kind="mesh")
+        if me is None or dom is None:
+            return None
+        V = self.call("ufl.FunctionSpace", self.ref(dom), self.ref(me), kind="space")
+        Vi = [self.call("ufl.FunctionSpace", self.ref(m), self.ref(e), kind="space") for m, e in zip(meshes, elems)]
+        if V is None or any(x is None for x in Vi):
+            return None
+        f = self.call("ufl.Coefficient", self.ref(V), kind="coef")
+        gq = self.call("ufl.Coefficient", self.ref(V), kind="coef")
+        if f is None or gq is None:
+            return None
+        parts = []
+        for c in (f, gq):
+            tmp = self.new()
+            if not self.emit(["call", tmp, "ufl.split", [self.ref(c)]]):
+                return None
+            outs = [self.new() for _ in range(n)]
+            self.emit(["unpack", None, self.ref(tmp), outs])
+            if any(o not in self.node.slots for o in outs):
+                return None
+            parts.append(outs)
+
+        def sc(x):
+            sh = self.shape(x)
+            if sh:
+                return self.call("operator.getitem", self.ref(x), ["t"] + [r.randrange(k_) for k_ in sh])
+            return x
+
+        rank = r.choice([0, 1, 2, 2])
+        total = None
+        for _ in range(r.randint(1, 3)):
+            a, b = r.randrange(n), r.randrange(n)
+            fa, gb = sc(parts[0][a]), sc(parts[1][b])
+            if fa is None or gb is None:
+                continue
+            e = self.call("operator.mul", self.ref(fa), self.ref(gb))
+            if e is not None and r.random() < 0.4:
+                x = self.call("ufl.SpatialCoordinate", self.ref(meshes[r.randrange(n)]), kind="geo")
+                x0 = self.call("operator.getitem", self.ref(x), 0) if x is not None else None
+                if x0 is not None:
+                    e = self.call("operator.mul", self.ref(x0), self.ref(e)) or e
+            used = {a, b}
+            if rank >= 1 and e is not None:
+                i = r.randrange(n)
+                v = sc(self.call("ufl.TestFunction", self.ref(Vi[i]), kind="arg"))
+                e = self.call("operator.mul", self.ref(e), self.ref(v)) if v is not None else None
+                used.add(i)
+            if rank == 2 and e is not None:
+                j = r.randrange(n)
+                u = sc(self.call("ufl.TrialFunction", self.ref(Vi[j]), kind="arg"))
+                e = self.call("operator.mul", self.ref(e), self.ref(u)) if u is not None else None
+                used.add(j)
+            if e is None:
+                continue
+            k_ = r.choice(sorted(used))
+            others = [self.call("ufl.Measure", "dx", kind="measure", domain=self.ref(meshes[o])) for o in sorted(used) if o != k_]
+            kw = {"domain": self.ref(meshes[k_])}
+            if others:
+                if any(o is None for o in others):
+                    continue
+                kw["intersect_measures"] = ["t"] + [self.ref(o) for o in others]
+            sid = r.choice([None, 1, 999])
+            if sid is not None:
+                kw["subdomain_id"] = sid
+            m = self.call("ufl.Measure", "dx", kind="measure", **kw)
+            if m is None:
+                continue
+            itg = self.call("operator.mul", self.ref(e), self.ref(m), kind="form")
+            if itg is None:
+                continue
+            self.exprs.append(e)
+            total = itg if total is None else (self.call("operator.add", self.ref(total), self.ref(itg), kind="form") or total)
+        if total is None:
+            return None
+        # a pseudo mesh record so that derive() can work on the form
+        M = {"slot": meshes[0], "cell": cell, "tdim": g, "gdim": g, "spaces": Vi, "terms": [f, gq], "consts": [], "coefs": [f, gq], "geos": [], "args": {}, "V": Vi[0], "x": None, "v": None, "u": None, "msq": True}
+        self.meshes.append(M)
+        self.forms.append((total, rank, len(self.meshes) - 1))
+        kf = self.cfg.get("keep_failed", False)
+        for _ in range(r.randint(1, 2)):
+            kw = {"do_apply_function_pullbacks": True, "do_apply_integral_scaling": True, "do_apply_geometry_lowering": True, "do_replace_functions": True}
+            if r.random() < 0.8:
+                kw["coefficients_to_split"] = ["t"] + [self.ref(c) for c in r.sample([f, gq], r.randint(1, 2))]
+            if r.random() < 0.5:
+                kw["preserve_geometry_types"] = ["t", ["fn", "ufl.classes.CellVolume"], ["fn", "ufl.classes.FacetArea"]]
+            fn = r.choice(["sim.ops.preprocessed_form", "sim.ops.form_data"])
+            d = self.call(fn, self.ref(total), kind="form" if fn.endswith("preprocessed_form") else "formdata", keep_failed=kf, **kw)
+            if d is None:
+                continue
+            if fn.endswith("form_data"):
+                d = self.call("sim.ops.fd_integrals_form", self.ref(d), kind="form", keep_failed=kf)
+            if d is not None and d in self.node.slots and isinstance(self.obj(d), Form):
+                try:
+                    rk = len(self.obj(d).arguments())
+                except BaseException:  # noqa: B036
+                    continue
+                self.derived.append((d, rk, len(self.meshes) - 1))
+        return total
+
     def shape_derivative_form(self, M):
         """Sum of >= 2 derivative(F_i, SpatialCoordinate, v_i): the only route into the
         coordinate-derivative grouping of group_form_integrals."""
@@ -969,15 +1094,43 @@ class Planner:
         return None
 
     # ---------------------------------------------------------------- programs
+    def foreign_objects(self):
+        """Objects created with explicit ids / counts, the way unpickling re-creates the
+        objects of another process (noise programs only)."""
+        r = self.rng
+        for M in self.meshes:
+            for _ in range(r.randint(1, 4)):
+                k = r.choice([0, 0, 1, 2, 3, 5, 9, 10, 11, 50, 99, 100])
+                w = r.randrange(6)
+                if w == 0:
+                    ce = self.elem("Lagrange", M["cell"], 1, (M["gdim"],))
+                    self.call("ufl.Mesh", self.ref(ce), kind="mesh", ufl_id=k)
+                elif w == 1 and M["spaces"]:
+                    self.call("ufl.Coefficient", self.ref(r.choice(M["spaces"])), kind="coef", count=k)
+                elif w == 2:
+                    self.call("ufl.Constant", self.ref(M["slot"]), kind="const", count=k)
+                elif w == 3:
+                    self.call("ufl.Index", kind="index", count=k)
+                elif w == 4 and M["terms"]:
+                    x = M.get("x")
+                    if x is not None:
+                        self.call("operator.getitem", self.ref(x), r.choice([True, ["np", "int64", 0], ["np", "int64", 1]]))
+                else:
+                    self.call("ufl.classes.Label", count=k)
+
     def program(self):
         """A build program: environment, terminals, forms, derived forms."""
         r = self.rng
         self.env()
+        if self.cfg.get("foreign"):
+            self.foreign_objects()
         nforms = self.cfg.get("n_forms") or r.randint(1, 3)
         depth = self.cfg.get("depth") or r.choice([2, 3, 3, 4])
         for _ in range(nforms):
-            M = r.choice(self.meshes)
-            if self.fam.get("mixed_space") and r.random() < self.fam["mixed_space"]:
+            M = r.choice([m_ for m_ in self.meshes if not m_.get("msq")])
+            if r.random() < self.fam.get("mesh_sequence", float(os.environ.get("VERIF_MSQ_P", "0.06"))):
+                self.mesh_sequence_form()
+            elif self.fam.get("mixed_space") and r.random() < self.fam["mixed_space"]:
                 self.mfs_form(M)
             elif self.fam.get("shape_derivative") and r.random() < self.fam["shape_derivative"]:
                 self.shape_derivative_form(M)
@@ -1536,6 +1689,30 @@ class Planner:
                     if t is not None:
                         nd.setdefault(gq, []).append(t)
                         pairs.append([gq, t, "term:" + what])
+        # the same mesh sequence given as a list and as a tuple; coefficients on it
+        same = [m for m in self.meshes if m["cell"] == self.meshes[0]["cell"] and m["gdim"] == self.meshes[0]["gdim"] and not m.get("msq")]
+        if len(same) >= 2 and r.random() < 0.7:
+            ms = [self.ref(m["slot"]) for m in same[:2]]
+            d1 = self.call("ufl.MeshSequence", ms, kind="mesh")
+            d2 = self.call("ufl.MeshSequence", ["t"] + ms, kind="mesh")
+            d3 = self.call("ufl.MeshSequence", list(reversed(ms)), kind="mesh")
+            p1 = self.elem("Lagrange", same[0]["cell"], 1, ())
+            me = self.call("sim.elements.MixedElem", [self.ref(p1), self.ref(p1)], kind="elem", make_cell_sequence=True)
+            cs = []
+            for what, d in (("same", d1), ("meshseq-tuple", d2), ("meshseq-order", d3)):
+                if d is None or me is None:
+                    continue
+                V = self.call("ufl.FunctionSpace", self.ref(d), self.ref(me), kind="space")
+                c = self.call("ufl.Coefficient", self.ref(V), kind="coef", count=77) if V is not None else None
+                if c is not None:
+                    cs.append((what, c))
+            for what, c in cs[1:]:
+                nd.setdefault(cs[0][1], []).append(c)
+                pairs.append([cs[0][1], c, "term:" + what])
+                w1 = self.call("operator.getitem", self.ref(cs[0][1]), 0)
+                w2 = self.call("operator.getitem", self.ref(c), 0)
+                if w1 is not None and w2 is not None:
+                    pairs.append([w1, w2, "term:" + what + ":nested"])
         # literals
         lits = []
         for v in [0, 1, 1.0, ["c", 1.0, 0.0], 2, 2.0, -1, 0.0, ["c", 0.0, 0.0], 0.5, ["c", 0.5, 1.0], 0.1 + 0.2, 0.3, 1 / 3, 0.3333333333333333, 0.333333333333333, ["c", 1 / 3, 0.0]]:
@@ -1788,7 +1965,7 @@ class Planner:
                 pool.append(tw)
         for M in self.meshes:
             pool += M["coefs"] + M["consts"] + M["geos"] + [x for x in (M.get("v"), M.get("u")) if x is not None]
-        pool += self.exprs + [f[0] for f in self.forms] + lits + [p[1] for p in pairs]
+        pool += self.exprs + [f[0] for f in self.forms] + lits + [x for p in pairs for x in p[:2]]
         pool = [s_ for s_ in dict.fromkeys(pool) if s_ in self.node.slots and isinstance(self.obj(s_), (Expr, BaseForm))]
         res = self.result()
         res["pool"] = pool
